@@ -58,6 +58,30 @@ def _pickle(x) -> str | None:
         return None
 
 
+_BASELINE: dict | None = None
+
+
+def _baseline(p: dict) -> dict:
+    """The committed record of the last clean proof of this function: sha256 of its source and the obligations proved."""
+    global _BASELINE
+    if _BASELINE is None:
+        try:
+            with open(os.path.join(VERIF, "proof_baseline.json")) as fh:
+                _BASELINE = json.load(fh)
+        except OSError:
+            _BASELINE = {}
+    return _BASELINE.get(p["qualname"], {})
+
+
+def _changed_since_baseline(p: dict) -> bool:
+    b = _baseline(p)
+    return bool(b) and b.get("sha256") != (p.get("info") or {}).get("sha256")
+
+
+def _baseline_proved(p: dict) -> set:
+    return set(_baseline(p).get("proved", []))
+
+
 def _unpickle(s: str):
     import cloudpickle
     return cloudpickle.loads(base64.b64decode(s))
@@ -240,6 +264,19 @@ def run_property(pid: str, tier: str) -> int:
                 failures.append(Failure(p["function"], r["name"], f"{p['function']}: exact obligation {r['name']} "
                                         f"refuted by {r['backend']}, model not concretisable",
                                         {"qualname": p["qualname"], "goal": r.get("goal"), "model": r.get("model")},
+                                        "proof-exact-unreplayed"))
+            elif _changed_since_baseline(p) and r["name"] in _baseline_proved(p) and not b["failures"]:
+                # an obligation that was discharged for the committed source of this function is refuted for the
+                # current source, and neither the counter-model nor the bounded evaluation gives a failing input
+                failures.append(Failure(p["function"], r["name"],
+                                        f"{p['function']}: obligation {r['name']} (line {r['line']}), proved for the "
+                                        f"baseline source, is refuted by {r['backend']} for the current source; the "
+                                        f"counter-model does not replay on the real function and the bounded "
+                                        f"evaluation ({b['evaluations']} inputs) found no failing input",
+                                        {"qualname": p["qualname"], "obligation": r["name"], "line": r["line"],
+                                         "goal": r.get("goal"), "model": r.get("model"), "replay": jsonable(rp),
+                                         "solver": r["backend"], "baseline_sha256": _baseline(p).get("sha256"),
+                                         "current_sha256": (p.get("info") or {}).get("sha256")},
                                         "proof-exact-unreplayed"))
             else:
                 proof_lost.append({"function": p["function"], "obligation": r["name"], "line": r["line"],
